@@ -573,6 +573,15 @@ func (c *bufioConn) Write(b []byte) (int, error) {
 	return c.Conn.Write(b)
 }
 
+// CloseWrite passes a write shutdown through to the wrapped connection so the
+// relay can forward the peer's end of stream (half-close).
+func (c *bufioConn) CloseWrite() error {
+	if wc, ok := c.Conn.(WriteCloser); ok {
+		return wc.CloseWrite()
+	}
+	return nil
+}
+
 func (c *bufioConn) Close() error {
 	return c.Conn.Close()
 }
